@@ -13,6 +13,10 @@
 //!   qg <graph> ; <plan tokens> ; <cypher>             C22 on the fixed graph number <graph> (built by `build_graph`, no setup lines)
 //!   limg <graph> <rows> <coll> <apply> ; <plan tokens> ; <cypher>     C33 on a fixed graph
 //!   limxg <graph> <rows> <coll> <apply> ; <cypher>    C33 on a fixed graph, engine only
+//!   wq ; <write plan tokens> ; <cypher>              C22, write statement without RETURN (`execute_write`), never committed -> ok | err:<class>
+//!   wm ; <write plan tokens> ; <cypher>              C22, write statement with RETURN (`execute_mixed`: staged)  -> ok | err:<class>
+//!   wlim <coll> ; <write plan tokens> ; <cypher>     C33, `execute_write` under a collection limit -> complete|limit|ALTERED | lim=.. unl=..
+//!   wmlim <coll> ; <write plan tokens> ; <cypher>    C33, `execute_mixed` under a collection limit
 //! On graph lines the plan tokens carry the graph facts the plan needs as row tables (node scans,
 //! the rows every expansion / procedure call yields per input row, index entries), materialised at
 //! generation time from the same graph.
@@ -855,6 +859,8 @@ fn plan_tokens(p: &Plan, gx: Option<&Gx>, out: &mut Vec<String>) -> Option<()> {
     }
     match p {
         Plan::ReturnOne => out.push("one".into()),
+        // the input of a staged clause of a write statement: the rows of the stage below
+        Plan::Values { rows } if rows.len() == 1 && rows[0].get("__hole").is_some() => out.push("hole".into()),
         // the leaf of an EXISTS subquery: the outer row (column values are placeholders here)
         Plan::Values { rows } if rows.len() == 1 => out.push("arg".into()),
         Plan::Unwind { input, expression, alias } if ident_ok(alias) => {
@@ -1068,6 +1074,120 @@ fn plan_tokens(p: &Plan, gx: Option<&Gx>, out: &mut Vec<String>) -> Option<()> {
     Some(())
 }
 
+fn hole_plan() -> Plan {
+    Plan::Values { rows: vec![Row::new(vec![("__hole".to_string(), Value::Bool(true))])] }
+}
+
+/// a read clause with its input replaced, and the original input
+fn replace_input(p: &Plan, new: Plan) -> Option<(Plan, &Plan)> {
+    let b = Box::new(new);
+    Some(match p {
+        Plan::Filter { input, predicate } => (Plan::Filter { input: b, predicate: predicate.clone() }, input),
+        Plan::Project { input, projections } => (Plan::Project { input: b, projections: projections.clone() }, input),
+        Plan::Aggregate { input, group_by, aggregates } => {
+            (Plan::Aggregate { input: b, group_by: group_by.clone(), aggregates: aggregates.clone() }, input)
+        }
+        Plan::OrderBy { input, items } => (Plan::OrderBy { input: b, items: items.clone() }, input),
+        Plan::Skip { input, skip } => (Plan::Skip { input: b, skip: skip.clone() }, input),
+        Plan::Limit { input, limit } => (Plan::Limit { input: b, limit: limit.clone() }, input),
+        Plan::Distinct { input } => (Plan::Distinct { input: b }, input),
+        Plan::Unwind { input, expression, alias } => {
+            (Plan::Unwind { input: b, expression: expression.clone(), alias: alias.clone() }, input)
+        }
+        _ => return None,
+    })
+}
+
+/// a write statement's plan in the syntax of the write model (Model/WriteOps.lean):
+///   wread <plan> | wstage <clause over `hole`> <wplan> | wwrite <n> <expr>*n <wplan> | wforeach <var> <list> <sub wplan> <wplan>
+/// `staged` = the statement runs through `execute_write_with_rows` (every clause is a stage)
+fn wplan_tokens(p: &Plan, staged: bool, in_sub: bool, out: &mut Vec<String>) -> Option<()> {
+    let cx_of = |input: &Plan| {
+        let mut cols = Vec::new();
+        collect_aliases(input, &mut cols);
+        Cx { cols, checked_arg: false, gx: None }
+    };
+    match p {
+        Plan::Create { input, pattern, merge } if !*merge => {
+            let mut exprs: Vec<&Expression> = Vec::new();
+            for el in &pattern.elements {
+                let props = match el {
+                    nervusdb_query::ast::PathElement::Node(n) => &n.properties,
+                    nervusdb_query::ast::PathElement::Relationship(r) => &r.properties,
+                };
+                if let Some(m) = props {
+                    for pair in &m.properties {
+                        exprs.push(&pair.value);
+                    }
+                }
+            }
+            out.push("wwrite".into());
+            out.push(exprs.len().to_string());
+            for e in exprs {
+                expr_tokens(e, &cx_of(input), out)?;
+            }
+            wplan_tokens(input, staged, in_sub, out)
+        }
+        Plan::Foreach { input, variable, list, sub_plan } if ident_ok(variable) => {
+            out.push("wforeach".into());
+            out.push(variable.clone());
+            expr_tokens(list, &cx_of(input), out)?;
+            wplan_tokens(sub_plan, false, true, out)?;
+            wplan_tokens(input, staged, in_sub, out)
+        }
+        Plan::Values { .. } if in_sub => {
+            out.push("wread".into());
+            out.push("arg".into());
+            Some(())
+        }
+        _ => {
+            if staged && let Some((node, inp)) = replace_input(p, hole_plan()) {
+                out.push("wstage".into());
+                plan_tokens(&node, None, out)?;
+                return wplan_tokens(inp, staged, in_sub, out);
+            }
+            out.push("wread".into());
+            plan_tokens(p, None, out)
+        }
+    }
+}
+
+fn model_wplan(cypher: &str, staged: bool) -> Option<String> {
+    let q = prepare(cypher).ok()?;
+    let mut out = Vec::new();
+    wplan_tokens(q.verif_plan(), staged, false, &mut out)?;
+    Some(out.join(" "))
+}
+
+/// a write statement, never committed: `ok` / `err:<class>`
+fn try_write(db: &Db, cypher: &str, mixed: bool, opts: ExecuteOptions) -> Outcome {
+    let q = match prepare(cypher) {
+        Ok(q) => q,
+        Err(e) => return Outcome::Err(format!("prepare:{}", err_class(&e))),
+    };
+    let snap = db.snapshot();
+    let mut txn = db.begin_write();
+    let params = Params::with_execute_options(opts);
+    let r = if mixed {
+        q.execute_mixed(&snap, &mut txn, &params).map(|_| ())
+    } else {
+        q.execute_write(&snap, &mut txn, &params).map(|_| ())
+    };
+    drop(txn);
+    match r {
+        Ok(()) => Outcome::Rows(vec![]),
+        Err(e) => Outcome::Err(err_class(&e)),
+    }
+}
+
+fn show_w(o: &Outcome) -> String {
+    match o {
+        Outcome::Rows(_) => "ok".into(),
+        Outcome::Err(e) if e.starts_with("limit:") => "err:limit".into(),
+        Outcome::Err(e) => format!("err:{}", e),
+    }
+}
+
 /// the model-syntax plan of a query, from the engine's planner
 fn model_plan(cypher: &str) -> Option<String> {
     let q = prepare(cypher).ok()?;
@@ -1120,6 +1240,25 @@ impl State for S {
                     format!("{} | rows={}", o.show(), emitted)
                 }
             }
+            "wq" | "wm" => match try_write(&self.db, &last, ws[0] == "wm", unlimited()) {
+                Outcome::Rows(_) => "ok".into(),
+                Outcome::Err(e) => format!("err:{}", e),
+            },
+            "wlim" | "wmlim" if ws.len() > 2 => {
+                let unl = try_write(&self.db, &last, ws[0] == "wmlim", unlimited());
+                let o = ExecuteOptions { max_collection_items: num(ws[1]), ..unlimited() };
+                let lim = try_write(&self.db, &last, ws[0] == "wmlim", o);
+                let rel = if show_w(&lim) == show_w(&unl) {
+                    "complete"
+                } else if lim.is_limit() {
+                    "limit"
+                } else {
+                    "ALTERED"
+                };
+                format!("{} | lim={} unl={}", rel, show_w(&lim), show_w(&unl))
+            }
+            "wtokens" => model_wplan(&last, false).unwrap_or_else(|| "unsupported".into()),
+            "wmtokens" => model_wplan(&last, true).unwrap_or_else(|| "unsupported".into()),
             "qg" if ws.len() > 2 => {
                 let id = ws[1].parse::<u64>().unwrap_or(0);
                 let (o, emitted) = run_query(self.graph(id), &last, unlimited());
@@ -1707,6 +1846,10 @@ fn generate_c22(rng: &mut Rng, n: usize, _tier: &str, out: &mut dyn Write) {
         }
     }
     generate_c22_graph(rng, n / 6, _tier, out);
+    writeln!(out, "#case write-sweep").unwrap();
+    for (cy, ret) in write_sweep() {
+        emit_w(out, if ret { "wm" } else { "wq" }, &cy, ret);
+    }
 }
 
 // ---- graph queries (fixed graphs of `build_graph`)
@@ -1809,6 +1952,75 @@ fn graph_query(rng: &mut Rng, size: i64, min_limit: i64) -> String {
     s += &format!(" WITH {}{}", distinct, body.join(", "));
     g.tail(s)
 }
+
+/// write statements (C22): an expression that raises on exactly one row, in every place a write
+/// statement evaluates expressions — the write clause itself, the read clauses before it (lazily
+/// under `execute_write`, stage by stage under `execute_mixed`), FOREACH lists and bodies —
+/// failing row first / middle / last; (statement, it has a RETURN)
+fn write_sweep() -> Vec<(String, bool)> {
+    let mut qs: Vec<(String, bool)> = Vec::new();
+    let fns: &[(&str, &[&str], &str)] =
+        &[("toInteger", &["1", "'7'", "2"], "true"), ("toBoolean", &["'true'", "'false'", "true"], "1")];
+    for (f, ok, bad) in fns {
+        for n in [0usize, 1, 2, 3, 5] {
+            for pos in 0..4 {
+                if n <= 1 && pos > 0 && pos < 3 || n == 2 && pos == 1 {
+                    continue;
+                }
+                // pos 3 = no failing row at all
+                let l = if pos == 3 { list_with_bad(n, 0, ok, ok[0]) } else { list_with_bad(n, pos, ok, bad) };
+                let src = format!("UNWIND {} AS x", l);
+                for ret in [false, true] {
+                    let r = |q: String, with: &str| (if ret { format!("{} RETURN {} AS r", q, with) } else { q }, ret);
+                    qs.push(r(format!("{} CREATE (:T {{b: {}(x)}})", src, f), "x"));
+                    qs.push(r(format!("{} WITH {}(x) AS b CREATE (:T {{b: b}})", src, f), "b"));
+                    qs.push(r(format!("{} WITH {}(x) AS b LIMIT 1 CREATE (:T {{b: b}})", src, f), "b"));
+                    qs.push(r(format!("{} WITH x ORDER BY {}(x) CREATE (:T {{v: 1}})", src, f), "x"));
+                    qs.push(r(format!("{} WITH x ORDER BY {}(x) LIMIT 1 CREATE (:T {{v: 1}})", src, f), "x"));
+                    qs.push(r(format!("{} WITH DISTINCT {}(x) AS b CREATE (:T {{b: b}})", src, f), "b"));
+                    qs.push(r(format!("{} WITH x WHERE {}(x) IS NOT NULL CREATE (:T {{v: 1}})", src, f), "x"));
+                    qs.push(r(format!("{} WITH x SKIP 1 CREATE (:T {{b: {}(x)}})", src, f), "x"));
+                    qs.push(r(format!("{} WITH count({}(x)) AS c CREATE (:T {{c: c}})", src, f), "c"));
+                    qs.push(r(format!("{} WITH x LIMIT 1 CREATE (:T {{b: {}(x)}})-[:E {{w: 1}}]->(:U)", src, f), "x"));
+                }
+                qs.push((format!("FOREACH (x IN {} | CREATE (:T {{b: {}(x)}}))", l, f), false));
+                qs.push((format!("UNWIND [1, 2] AS k FOREACH (x IN {} | CREATE (:T {{b: {}(x), k: k}}))", l, f), false));
+                qs.push((format!("{} FOREACH (i IN [{}(x)] | CREATE (:T {{b: i}}))", src, f), false));
+                qs.push((format!("{} FOREACH (i IN [1, 2] | CREATE (:T {{b: {}(x), i: i}}))", src, f), false));
+                qs.push((format!("{} FOREACH (i IN x | CREATE (:T {{i: i}}))", src), false));
+            }
+        }
+    }
+    qs
+}
+
+fn emit_w(out: &mut dyn Write, op: &str, cy: &str, staged: bool) -> bool {
+    match model_wplan(cy, staged) {
+        Some(toks) => {
+            writeln!(out, "{} ; {} ; {}", op, toks, cy).unwrap();
+            true
+        }
+        None => false,
+    }
+}
+
+/// write statements under collection limits (C33)
+const WRITE_LIMIT_QUERIES: &[(&str, bool)] = &[
+    ("UNWIND range(1, 20) AS x CREATE (:T {v: x})", false),
+    ("UNWIND range(1, 20) AS x WITH x WHERE x % 2 = 0 CREATE (:T {v: x})", false),
+    ("UNWIND range(1, 12) AS x WITH collect(x) AS xs CREATE (:T {n: 1})", false),
+    ("UNWIND range(1, 12) AS x WITH x % 3 AS k, count(*) AS c CREATE (:T {k: k, c: c})", false),
+    ("UNWIND range(1, 12) AS x WITH x ORDER BY x DESC LIMIT 3 CREATE (:T {v: x})", false),
+    ("UNWIND range(1, 12) AS x WITH DISTINCT x % 4 AS m CREATE (:T {m: m})", false),
+    ("UNWIND [1, 2, 3] AS x FOREACH (i IN range(1, 6) | CREATE (:T {v: i}))", false),
+    ("UNWIND range(1, 9) AS x WITH collect(x) AS xs FOREACH (i IN xs | CREATE (:T {v: i}))", false),
+    ("UNWIND range(1, 20) AS x CREATE (:T {v: x}) RETURN x AS x", true),
+    ("UNWIND range(1, 12) AS x WITH collect(x) AS xs CREATE (:T {n: 1}) RETURN xs AS xs", true),
+    ("UNWIND range(1, 12) AS x WITH x ORDER BY x DESC LIMIT 3 CREATE (:T {v: x}) RETURN x AS x", true),
+    ("UNWIND range(1, 12) AS x WITH x % 3 AS k, count(*) AS c CREATE (:T {k: k, c: c}) RETURN k AS k", true),
+    ("UNWIND range(1, 12) AS x WITH DISTINCT x % 4 AS m CREATE (:T {m: m}) RETURN m AS m", true),
+    ("UNWIND range(1, 12) AS x CREATE (:T {v: x}) WITH x WHERE x > 3 RETURN count(x) AS c", true),
+];
 
 /// the fixed graphs a run uses
 fn graph_ids(tier: &str) -> Vec<u64> {
@@ -2078,6 +2290,13 @@ fn generate_c33(rng: &mut Rng, n: usize, tier: &str, out: &mut dyn Write) {
         }
     }
     generate_c33_graph(rng, n / 6, tier, out);
+    writeln!(out, "#case write-limits").unwrap();
+    for (cy, ret) in WRITE_LIMIT_QUERIES {
+        let lims: Vec<usize> = if tier == "thorough" { (1..=24).collect() } else { vec![1, 2, 3, 5, 6, 8, 11, 12, 13, 19, 20, 21] };
+        for c in lims {
+            emit_w(out, &format!("{} {}", if *ret { "wmlim" } else { "wlim" }, c), cy, *ret);
+        }
+    }
     // soft timeout (child process; nondeterministic by nature: only complete-or-limit is compared)
     writeln!(out, "#case timeout").unwrap();
     const TIMEOUT_QUERIES: &[&str] = &[
